@@ -9,7 +9,7 @@ use crate::{
     sess::{self, Mode},
 };
 use rayon::prelude::*;
-use refnoise::{patterns, CipherAlg, DhAlg, HashAlg, Proto};
+use refnoise::{patterns, DhAlg, HashAlg, Proto};
 use serde_json::json;
 
 const CATS: [Cat; 5] = [Cat::ExpectedErrGotOk, Cat::ExpectedOkGotErr, Cat::OutBytes, Cat::OutLen, Cat::Panic];
